@@ -775,3 +775,6 @@ CONVERT_MPI = Stream('cli_convert_mpi', cli_harness, None, gen_convert, oracle=o
 
 INTERP_MPI = Stream('cli_interp_mpi', cli_harness, None, gen_interp, oracle=oracle_interp, kind='oracle',
                     np=[2, 4], nontrivial=lambda op, out: out.startswith('rc=0'), timeout=900)
+
+DISTANCE_MPI = Stream('cli_distance_mpi', cli_harness, None, gen_distance, oracle=oracle_distance, kind='oracle',
+                      np=[2, 3], nontrivial=lambda op, out: out.startswith('rc=0'), timeout=900)
